@@ -75,21 +75,34 @@ def tol_lit(t):
     return "(@None Q)" if t is None else f"(Some {qlit(t)})"
 
 
+def make_pool(key):
+    dt = np.dtype(key["dtype"]).type
+    if key.get("pool") == 2:
+        return L.leaf_pool2(random.Random(key["tseed"]), dt)
+    return L.leaf_pool(random.Random(key["tseed"]), key["n"], dt)
+
+
 def gen_tree_case(ctx, depth):
     dt = ctx.rng.choice([np.float64, np.complex128])
-    n = ctx.rng.choice([2, 3])
+    which = 2 if ctx.rng.random() < 0.35 else 1
+    n = 6 if which == 2 else ctx.rng.choice([2, 3])
     tseed = ctx.rng.getrandbits(32)
-    pool = L.leaf_pool(random.Random(tseed), n, dt)
+    key = {"n": n, "dtype": np.dtype(dt).name, "tseed": tseed, "pool": which}
+    pool = make_pool(key)
     desc, build = L.random_tree(random.Random(tseed + 1), depth, n, dt, pool)
-    return {"tree": desc, "n": n, "dtype": np.dtype(dt).name, "tseed": tseed}, pool, build
+    key["tree"] = desc
+    return key, pool, build
 
 
 def tree_case_coq(key, pool, A):
+    """(n, tol, tree over the leaf matrices, matrix of the result, matrix of the result's adjoint)"""
     cache = {}
     R = L.dense(A, A.input_shape, A.input_dtype)
-    approx = bool(leaves_of(key["tree"]) & APPROX_LEAVES) or not exact_div(key["tree"])
+    Radj = L.dense(A.adj, A.output_shape, A.output_dtype)
+    approx = any(l.startswith("CircularConvolve") for l in leaves_of(key["tree"])) or not exact_div(key["tree"])
     tol = 2.0 ** -30 if approx else None
-    return f"({key['n']}%nat, {tol_lit(tol)}, {tree_to_coq(key['tree'], pool, cache)}, {L.coq_mat(R)})"
+    return (f"({key['n']}%nat, {tol_lit(tol)}, {tree_to_coq(key['tree'], pool, cache)}, {L.coq_mat(R)}, "
+            f"{L.coq_mat(Radj)})")
 
 
 def run(ctx: Ctx):
@@ -116,27 +129,48 @@ def run(ctx: Ctx):
         except Exception as ex:
             ctx.violation("expression:" + root_of(key["tree"]), "evaluating a valid operator expression fails", key,
                           observed=f"{type(ex).__name__}: {str(ex)[:200]}", oracle="evaluation")
-    # class pairs in both orders, explicitly (dispatch of + and -)
-    for dt in (np.float64, np.complex128):
-        names = sorted(L.leaf_pool(random.Random(1), 3, dt))
-        for a in names:
-            for b in names:
-                for op in (["add", "sub", "comp"] if not ctx.quick else [ctx.rng.choice(["add", "sub", "comp"])]):
-                    tseed = ctx.rng.getrandbits(32)
-                    pool = L.leaf_pool(random.Random(tseed), 3, dt)
-                    key = {"tree": [op, ["leaf", a], ["leaf", b]], "n": 3, "dtype": np.dtype(dt).name, "tseed": tseed}
-                    try:
-                        A = {"add": lambda: pool[a]() + pool[b](), "sub": lambda: pool[a]() - pool[b](),
-                             "comp": lambda: pool[a]()(pool[b]())}[op]()
-                        cases.append(tree_case_coq(key, pool, A))
-                        metas.append(key)
-                        ctx.count("pair:" + op, key)
-                    except Exception as ex:
-                        ctx.violation(f"expression:{op}", "a valid class pair is rejected or fails", key,
-                                      observed=f"{type(ex).__name__}: {str(ex)[:200]}", oracle="evaluation")
+    # class pairs in both orders, explicitly (dispatch of + and -), on vectors and on (K, N) arrays
+    for which in (1, 2):
+        for dt in (np.float64, np.complex128):
+            k0 = {"n": 3 if which == 1 else 6, "dtype": np.dtype(dt).name, "tseed": 1, "pool": which}
+            names = sorted(make_pool(k0))
+            for a in names:
+                for b in names:
+                    for op in (["add", "sub", "comp"] if not ctx.quick else [ctx.rng.choice(["add", "sub", "comp"])]):
+                        tseed = ctx.rng.getrandbits(32)
+                        key = {**k0, "tseed": tseed, "tree": [op, ["leaf", a], ["leaf", b]]}
+                        pool = make_pool(key)
+                        try:
+                            A = {"add": lambda: pool[a]() + pool[b](), "sub": lambda: pool[a]() - pool[b](),
+                                 "comp": lambda: pool[a]()(pool[b]())}[op]()
+                            cases.append(tree_case_coq(key, pool, A))
+                            metas.append(key)
+                            ctx.count("pair:" + op, key)
+                        except Exception as ex:
+                            ctx.violation(f"expression:{op}", "a valid class pair is rejected or fails", key,
+                                          observed=f"{type(ex).__name__}: {str(ex)[:200]}", oracle="evaluation")
+            # every class x scalar operation x real / complex scalar (forward and adjoint closures)
+            for a in names:
+                for op in ("scale", "rscale", "div", "neg"):
+                    for c in ([2.0, -0.5] + ([1.0 + 2.0j, -0.5j] if L.is_complex(dt) else [])):
+                        if ctx.quick and ctx.rng.random() < 0.5:
+                            continue
+                        tseed = ctx.rng.getrandbits(32)
+                        desc = ["neg", ["leaf", a]] if op == "neg" else [op, str(c), ["leaf", a]]
+                        key = {**k0, "tseed": tseed, "tree": desc}
+                        pool = make_pool(key)
+                        try:
+                            from vf.props.C01 import rebuild_tree
+                            A = rebuild_tree(desc, pool)
+                            cases.append(tree_case_coq(key, pool, A))
+                            metas.append(key)
+                            ctx.count("scalar:" + op, key)
+                        except Exception as ex:
+                            ctx.violation(f"expression:{op}", "a valid scalar operation is rejected or fails", key,
+                                          observed=f"{type(ex).__name__}: {str(ex)[:200]}", oracle="evaluation")
     shard = 80
-    bodies = ["Definition cases : list (nat * option Q * c_mexpr * cmat) := " + coq_list(cases[s:s + shard], ";\n ") + ".\n"
-              "Eval vm_compute in (bad_idx expr_case_ok cases 0%nat)." for s in range(0, len(cases), shard)]
+    bodies = ["Definition cases : list (nat * option Q * c_mexpr * cmat * cmat) := " + coq_list(cases[s:s + shard], ";\n ") + ".\n"
+              "Eval vm_compute in (bad_idx expr_case_ok2 cases 0%nat)." for s in range(0, len(cases), shard)]
     for si, o in enumerate(coq_eval_shards("C05_tree", HEADER, bodies)):
         for idx in parse_eval_nat_list(o):
             key = metas[si * shard + idx]
@@ -326,10 +360,9 @@ def replay(ctx: Ctx, rec):
     key = rec["input"]
     if "tree" in key:
         from vf.props.C01 import rebuild_tree
-        dt = np.dtype(key["dtype"]).type
-        pool = L.leaf_pool(random.Random(key["tseed"]), key["n"], dt)
+        pool = make_pool(key)
         A = rebuild_tree(key["tree"], pool)
-        body = ("Definition cases : list (nat * option Q * c_mexpr * cmat) := [" + tree_case_coq(key, pool, A) + "].\n"
-                "Eval vm_compute in (bad_idx expr_case_ok cases 0%nat).")
+        body = ("Definition cases : list (nat * option Q * c_mexpr * cmat * cmat) := [" + tree_case_coq(key, pool, A) + "].\n"
+                "Eval vm_compute in (bad_idx expr_case_ok2 cases 0%nat).")
         return parse_eval_nat_list(coq_eval_shards("C05_replay", HEADER, [body])[0]) == []
     raise SystemExit("replay of this unit: re-run ./check C05 (deterministic from VERIF_SEED)")
